@@ -1925,6 +1925,8 @@ def c15_injectors():
     def tuple_to_named_without_names(it, rng):
         if it.kind != 'struct' or it.shape != 'tuple':
             return None
+        if not it.members or it.members[0].attrs:
+            return None      # the message names member 0: it must be a plain field (a ghost / renamed / flattened field is not at fault)
         a = rng.choice(_trait_attrs(it))
         if is_fallible(a.name):
             a.args = a.cp + ' as {}, ' + (a.err or 'Er')
